@@ -199,6 +199,13 @@ Error ConstPool::add(const void* data, size_t size, Out<size_t> offset_out) noex
       }
 
       node = ConstPool::Tree::new_node_t(_arena, data_ptr, smaller_size, offset + (i * smaller_size), true);
+      if (ASMJIT_UNLIKELY(!node)) {
+        // Shared nodes only make parts of the constant reusable by smaller constants. The constant itself has been
+        // added, so this is not an error - just stop registering its parts.
+        smaller_size = 0;
+        break;
+      }
+
       _tree[tree_index].insert(node);
     }
   }
